@@ -132,6 +132,8 @@ def gen_min_cases(rng, n):
                     "reuse": rng.random() < 0.4})
         if bounds is not None and rng.random() < 0.3:
             out[-1]["bounds_list"] = True      # the interval handed over as a list, not a tuple
+        if rng.random() < 0.2:
+            out[-1]["x0_array"] = True         # the start handed over as a one-element numpy array (scipy style)
         if rng.random() < 0.3:
             # the parameter being minimised over need not be called x: a name spelled like a mathematical constant in a case the
             # expression language does NOT treat as one (e, E, pi, Pi, infinity) is an ordinary name, like lamda or N_1
